@@ -26,7 +26,7 @@ def run(ctx):
         return [c for c in ff.gen_flat(tier, rng) if ad.in_domain(c)] + fr
     import crosscut as cc
     out = adapters.simple_run(
-        ctx, [(ad, gen)], blocks=(cc.layout_block, cc.reuse_block, cc.carrier_block),
+        ctx, [(ad, gen)], blocks=(cc.layout_block, cc.reuse_block, cc.carrier_block, cc.fine_block),
         rule="exhaustive n<=6 over {missing,0,1/64,2}, n<=4 over a 5-letter alphabet, random n=5..6, the full D x suspect x "
              "fail x tolerance grid on fixed series, plateaus of length k-1,k,k+1, on regular axes with D in {1,2,60,900} and, random plateaus, D in {0.25,0.5,0.75,1.5,2.5}; "
              "durations in units of D: {0, D/2, D, 1.5D, 2D, 3D, (n+1)D}; tolerance on both sides of the window range. "
